@@ -185,7 +185,7 @@ def value_from_model(v, model):
     return {"unsupported": type(v).__name__}
 
 
-def native_call(job, timeout=120):
+def native_call(job, timeout=600):
     p = subprocess.run([NATIVE_PY, os.path.join(HERE, "pyvc", "native_replay.py")], input=json.dumps(job, default=str),
                        capture_output=True, text=True, timeout=timeout,
                        env={**os.environ, "PYTHONPATH": os.path.join(extract.REPO, "src")})
@@ -502,6 +502,21 @@ def solve_many(obls, budget, thorough):
         second_pass.update(redo)
         for i, r in pool.map(job, redo):
             out[i] = r
+    # load robustness: the solvers' budgets are wall-clock; on a busy machine an obligation that normally takes a second can run out of
+    # time.  Obligations left without a verdict are solved again, few at a time, with several times the budget, before anything is
+    # concluded from them (a timeout is never a refutation).
+    late = [i for i, ob in enumerate(obls) if ob.expect == "unsat" and texts[i] is not None and out[i].status not in ("unsat", "sat", "disagree")]
+    if late and len(late) <= 24:
+        def job2(i):
+            ob = obls[i]
+            order = getattr(ob, "order", None) or getattr(getattr(ob, "contract", None), "order", None) or ("z3", "cvc5")
+            to = (getattr(ob, "timeout", None) or getattr(getattr(ob, "contract", None), "timeout", None) or budget) * 5
+            r = solve.solve_text(texts[i], to, order, False, seeds=())
+            r.tried = list(out[i].tried) + [("retry-x5",) + tuple(t) for t in r.tried]
+            return i, r
+        with concurrent.futures.ThreadPoolExecutor(max_workers=4) as pool2:
+            for i, r in pool2.map(job2, late):
+                out[i] = r
     dump = os.environ.get("PYVC_DUMP")
     if dump:
         os.makedirs(dump, exist_ok=True)
